@@ -20,6 +20,8 @@ def sh(cmd, **kw):
 def run_demo(src_dir, wt, orig_root):
     cmd = open(os.path.join(src_dir, "demo_cmd.txt")).read()
     cmd = cmd.replace(orig_root + "/seed_out", src_dir).replace(orig_root, wt)
+    cmd = re.sub(r"-I\s*<[^>]*>(/include)?", "-I%s/include" % wt, cmd)
+    cmd = re.sub(r"<AVEL_ROOT>|\$\{?AVEL_ROOT\}?", wt, cmd)
     # keep only shell lines
     lines = [l for l in cmd.splitlines() if l.strip() and not l.strip().startswith("#")]
     script = "set -e\ncd %s\n" % src_dir + "\n".join(lines) + "\n"
@@ -82,7 +84,7 @@ def main():
     meta["needs_to_manifest"] = notes[:1200]
     with open(os.path.join(dst, "meta.json"), "w") as fh:
         json.dump(meta, fh, indent=1)
-    print(json.dumps({k: meta[k] for k in ("name", "confirmed", "demo_unchanged", "demo_changed", "check")}, indent=1)[:2500])
+    print(json.dumps({k: meta[k] for k in ("name", "confirmed", "demo_unchanged", "demo_changed", "check")}, indent=1))
 
 
 if __name__ == "__main__":
